@@ -500,6 +500,8 @@ def main(tier):
                 continue        # parameterized modules mostly need -fcompound-names (set 1); a second set in rotation
             if tier == "quick" and m["origin"] == "grammar-refused" and oi != mi % 4:
                 continue        # refusals happen in the parser / fixer: one option set each
+            if tier != "quick" and m["origin"] in ("partial", "strlit") and ((oi - 16 * mi) % 128) >= 16:
+                continue        # thorough, round-4 modules (many; their refusals do not depend on most flags): 16 rotating subsets, 6 of them built
             # thorough: build + translator under 16 rotating subsets per module (6 for the region modules of round 2, which are many)
             full = tier == "quick" or ((oi - 16 * mi) % 128) < (6 if m["origin"] in ("param", "multi", "grammar", "grammar-refused", "refs", "partial", "strlit") else 16)
             jobs.append({"mod": m, "opts": opts, "oi": oi, "dir": job_dir(root, m, oi), "asn1c": asn1c, "skel": skel,
